@@ -1179,6 +1179,8 @@ from mlmverif.selfcheck import B, OK  # noqa: E402
 _T = 'chainables/transform.py'
 _F = 'chainables/tree_fns.py'
 VARIANTS = [
+    OK('merged-state-stored-through-a-local', 'chainables/transform.py',
+       "          states_by_fn[key] = fn_state\n", "          merged_so_far = fn_state\n          states_by_fn[key] = merged_so_far\n"),
     OK('aggregate-inputs-through-a-local', 'chainables/tree_fns.py',
        "      fn_inputs, kw_inputs = self._get_inputs(inputs), {}\n      if self.input_argkeys:", "      selected = self._get_inputs(inputs)\n      fn_inputs, kw_inputs = selected, {}\n      if self.input_argkeys:"),
     B('keyword-bound-inputs-selected-beside-get-inputs', 'chainables/tree_fns.py',
